@@ -1,6 +1,7 @@
 package main
 
 import (
+	"os"
 	"fmt"
 	"math"
 	"math/big"
@@ -35,6 +36,7 @@ type poolVal struct {
 	unitVal *big.Rat
 	priced  bool
 	desc    string
+	accPos  string // per asset: does the chain value it on the accounted balance ('a') or fall back to the raw reserve ('r')
 }
 
 type MonC05 struct {
@@ -79,6 +81,9 @@ func (m *MonC05) measure(ctx sdk.Context) map[uint64]*poolVal {
 				bal := a.Token.Amount
 				if acc := app.AccountedPoolKeeper.GetAccountedBalance(ctx, p.PoolId, a.Token.Denom); acc.IsPositive() {
 					bal = acc
+					v.accPos += "a"
+				} else {
+					v.accPos += "r"
 				}
 				price := app.OracleKeeper.GetAssetPriceFromDenom(ctx, a.Token.Denom)
 				if price.IsZero() {
@@ -91,6 +96,11 @@ func (m *MonC05) measure(ctx sdk.Context) map[uint64]*poolVal {
 			}
 		}
 		v.desc = fmt.Sprintf("shares=%s assets=%s", p.TotalShares.Amount, poolAssetsString(p))
+		if p.PoolParams.UseOracle {
+			for _, a := range p.PoolAssets {
+				v.desc += fmt.Sprintf(" acc(%s)=%s", shortDenom(a.Token.Denom), app.AccountedPoolKeeper.GetAccountedBalance(ctx, p.PoolId, a.Token.Denom))
+			}
+		}
 		out[p.PoolId] = v
 	}
 	return out
@@ -207,7 +217,18 @@ func (m *MonC05) observe(ctx sdk.Context, step string, basis map[uint64]string) 
 			if bs == "" {
 				bs = "mixed"
 			}
+			if prev.accPos != v.accPos {
+				// The chain values an asset on its accounted balance only while that is positive and
+				// falls back to the raw reserve otherwise (all of the reserve is traders' custody). A
+				// step across that switch changes the valuation rule itself, so the accounted figure
+				// before and after are not comparable: weak rule.
+				bs = "mixed"
+				s.Stats.Probe("join_or_exit_across_accounted_fallback_switch")
+			}
 			fa, fr := fell(v.tvl, prev.tvl), fell(v.tvlRaw, prev.tvlRaw)
+			if os.Getenv("ELYSSIM_DEBUG_C05") != "" {
+				fmt.Printf("DEBUGC05 h=%d step=%s pool=%d kind=%s basis=%s shares %s -> %s tvlAcc %s -> %s tvlRaw %s -> %s fellAcc=%v fellRaw=%v\n  before {%s}\n  after  {%s}\n", ctx.BlockHeight(), step, id, kind, bs, prev.shares, v.shares, prev.tvl.FloatString(3), v.tvl.FloatString(3), prev.tvlRaw.FloatString(3), v.tvlRaw.FloatString(3), fa, fr, prev.desc, v.desc)
+			}
 			bad, which := false, ""
 			switch bs {
 			case "single":
@@ -408,4 +429,11 @@ func (m *MonC07) step(ctx sdk.Context, t *ExecTx, step string) {
 			s.Stats.Probe("borrow_near_cap")
 		}
 	}
+}
+
+func shortDenom(d string) string {
+	if len(d) > 10 {
+		return d[:8] + "…"
+	}
+	return d
 }
